@@ -7,13 +7,15 @@ TOKEN = re.compile(r"""
   | (?P<str>(?:u8|u|U|L)?"(?:\\.|[^"\\\n])*")
   | (?P<chr>(?:u8|u|U|L)?'(?:\\.|[^'\\\n])*')
   | (?P<num>\.?[0-9](?:[eEpP][+-]|[0-9a-zA-Z_.])*)
-  | (?P<id>[A-Za-z_][A-Za-z_0-9]*)
+  | (?P<id>[^\W\d]\w*)
   | (?P<p>.)
 """, re.X | re.S)
 
 
 def atoms(text):
     """Canonical atom list: identifiers / numbers / strings / chars whole, every punctuator char separately."""
+    # gcc spells characters outside the basic set in identifiers as universal character names
+    text = re.sub(r"\\U([0-9a-fA-F]{8})|\\u([0-9a-fA-F]{4})", lambda m: chr(int(m.group(1) or m.group(2), 16)), text)
     out = []
     for m in TOKEN.finditer(text):
         k = m.lastgroup
